@@ -430,6 +430,7 @@ def handleReq (j : Json) : Except String Json := do
           | some cf => scfgJson cf),
         ("conv", Json.arr (pl.conv.map fun kv => Json.arr #[entryJson kv.1, entryJson kv.2]).toArray),
         ("takesKw", toJson (converterTakesKw method pl.prim)),
+        ("convFails", toJson (pl.conv.any (convFails method pl.prim))),
         ("count", Json.arr (pl.conv.map fun kv => match convertedCount kv with
           | .ok n => toJson n
           | .error e => Json.str e).toArray)]
